@@ -283,7 +283,32 @@ fn main() {
     kt.extend(long_cols.iter().copied());
     // heaviest columns first
     kt.sort_by_key(|&(k, n, _, _)| std::cmp::Reverse(k * n));
-    let cols = par_map(&kt, n_threads(), |&(k, n, g, t)| run_kt(k, n, g, t));
+    // stage 1: the columns of k <= 2 with short horizons. A changed tree can make the integration over unit draws much more
+    // expensive (more draws per add); the small columns stay cheap, and a violation found there is reported without waiting
+    // for the large ones (shortest counterexample first)
+    let (small, large): (Vec<_>, Vec<_>) = kt.iter().copied().partition(|&(k, n, _, _)| k <= 2 && n <= 20);
+    let mut cols = par_map(&small, n_threads(), |&(k, n, g, t)| run_kt(k, n, g, t));
+    let mut early = false;
+    for &(k, n_max, _grid) in jobs.iter().filter(|j| j.0 <= 2 && j.1 <= 20) {
+        let mut p = vec![vec![0.0f64; n_max]; n_max + 1];
+        let mut err = false;
+        for c in cols.iter().filter(|c| c.k == k && c.p.len() == n_max + 1) {
+            for n in 0..=n_max {
+                p[n][c.t] = c.p[n];
+            }
+            err |= c.err.is_some();
+        }
+        if err || !oracle(k, n_max, &p).viols.is_empty() {
+            early = true;
+        }
+    }
+    if early {
+        run.ev.set("stopped_after_stage_1", json!("a violation was found on the columns k <= 2; larger k and long streams were not run"));
+    } else {
+        cols.extend(par_map(&large, n_threads(), |&(k, n, g, t)| run_kt(k, n, g, t)));
+    }
+    let jobs: Vec<(usize, usize, usize)> = if early { jobs.into_iter().filter(|j| j.0 <= 2 && j.1 <= 20).collect() } else { jobs };
+    let long_jobs: Vec<(usize, usize, usize)> = if early { vec![] } else { long_jobs };
     for &(k, n_max, grid) in &jobs {
         let mut p = vec![vec![0.0f64; n_max]; n_max + 1];
         let (mut leaf, mut lumped, mut trans, mut classes) = (0u64, 0u64, 0u64, 0u64);
